@@ -487,7 +487,7 @@ def write_evidence(prop, tier, seed, meta, res, obligations, discharged, thms, e
             "driver_notes": res.get("notes") or [],
         })
         for k, v in (res.get("extra") or {}).items():
-            if k != "case_index":
+            if k not in ("case_index", "case_hash"):
                 cov[k] = v
     cov.update(extra)
     ev = {
